@@ -18,8 +18,10 @@ the original presentation of an input against
             `perm#2`, `perm#3` ... are further independent random permutations),
    hv2    : hydrogens named in the PDB v2 style (digit first: HB2 -> 2HB, HD11 -> 1HD1, H1 -> 1H),
    hter   : hydrogens of the first residue of every chain H1/H2/H3 -> HT1/HT2/HT3 (CHARMM style),
-   rotfar : rot90 with a translation that puts the structure at the limits of the PDB coordinate columns
-            (x up to 9995 A, y down to -995 A),
+   rotfar : rot90 with a translation after which the coordinates use all eight columns of their fields on every axis
+            (up to 9995.xxx, down to -995.xxx, or lying across 1000.000 / -100.000),
+   structure `<name>@alt`: the structure with alternate-location records (A and, displaced, B) for a few atoms; the
+            order patterns then also decide whether B is listed before A,
    crlf   : the same file with CR LF line ends (parsing is presentation too),
    all2   : permrev + hv2 + rotfar + CR LF line ends with every line padded with blanks to 96 columns, together.
 Every written ITP is parsed, canonicalised by the Lean function `canonTop` (driver op `canon`) and the canonical
@@ -280,11 +282,46 @@ def t_hter(recs):
     return recs, n
 
 
+FAR_MODES = ('hi', 'lo', 'straddle+', 'straddle-')
+
+
 def far_translation(recs, A, rng):
-    """translation (0.001 A grid) that puts the rotated structure against the limits of the %8.3f columns:
-    largest x at 9995 A, smallest y at -995 A, z anywhere"""
+    """translation (0.001 A grid) after which the coordinates use ALL EIGHT columns of their %8.3f fields, on every
+    axis in one of four ways: `hi` largest value 9995.xxx (four digits), `lo` smallest value -995.xxx (sign + three
+    digits), `straddle+` / `straddle-` the structure lies across 1000.000 / -100.000, so that some atoms need the
+    first column of the field and others do not.  At least one axis is positive four-digit and one negative
+    three-digit.  -> (t, modes)"""
     pts = [[sum(A[i][j] * r['xyz'][j] for j in range(3)) for i in range(3)] for r in recs if isinstance(r, dict)]
-    return [9995000 - max(p[0] for p in pts), -995000 - min(p[1] for p in pts), rng.randrange(-20000, 20001)]
+    modes = [rng.choice(FAR_MODES) for _ in range(3)]
+    i, j = rng.sample(range(3), 2)
+    modes[i], modes[j] = rng.choice(('hi', 'straddle+')), rng.choice(('lo', 'straddle-'))
+    t = []
+    for ax, m in enumerate(modes):
+        lo_, hi_ = min(p[ax] for p in pts), max(p[ax] for p in pts)
+        t.append({'hi': 9995000 - hi_, 'lo': -995000 - lo_, 'straddle+': 1000000 - (lo_ + hi_) // 2,
+                  'straddle-': -100000 - (lo_ + hi_) // 2}[m])
+    return t, modes
+
+
+def add_alternates(recs, rng, n=5):
+    """an input WITH alternate locations: `n` atoms (in different residues, heavy atoms and hydrogens) get the
+    alternate location indicator A, and a second record B for the same atom, displaced by about 0.9 A, is listed
+    right after it (the usual order).  The reader keeps A and drops B, whatever the order of the two records."""
+    recs = [dict(r) if isinstance(r, dict) else r for r in recs]
+    groups = [g for g in residues_of(recs) if len(g) >= 4]
+    chosen = {}
+    for g in rng.sample(groups, min(n, len(groups))):
+        side = [i for i in g if recs[i]['name'].strip() not in ('N', 'CA', 'C', 'O')] or g
+        chosen[rng.choice(side)] = True
+    out = []
+    for i, r in enumerate(recs):
+        if i in chosen:
+            a, b = dict(r, alt='A'), dict(r, alt='B')
+            b['xyz'] = [r['xyz'][0] + 600, r['xyz'][1] - 500, r['xyz'][2] + 400]
+            out += [a, b]
+        else:
+            out.append(r)
+    return out
 
 
 def text_crlf(text, pad):
@@ -982,6 +1019,7 @@ OPTSETS = {
     'm22': ['-ff', 'martini22', '-noscfix', '-ss', 'SS'],
     'm22-cys': ['-ff', 'martini22', '-noscfix', '-cys', 'auto'],
     'm22p-posres': ['-ff', 'martini22p', '-noscfix', '-p', 'all', '-pf', '500', '-maxwarn', '100'],
+    'm3-alt': ['-ff', 'martini3001', '-elastic', '-maxwarn', 'pdb-alternate'],
     'eln22': ['-ff', 'elnedyn22', '-noscfix', '-ss', 'SS', '-eu', '0.7', '-ef', '800.0'],
     'eln21-ter': ['-ff', 'elnedyn21', '-noscfix', '-ss', 'SS', '-nter', 'NH2-ter', '-cter', 'COOH-ter', '-ef', '500', '-maxwarn', '100'],
 }
@@ -1010,6 +1048,7 @@ QUICK = [
     ('beta', 'm3-ss-elastic', ['all', 'all2', 'hname', 'permh'], []),
     ('helix', 'm3-elastic', ['perm', 'hv2', 'rotfar', 'rotgen'], []),
     ('dipro', 'm22-cys', ['all2', 'hter'], []),
+    ('beta@alt', 'm3-alt', ['permrev', 'perm', 'rotfar'], []),
 ]
 
 
@@ -1019,8 +1058,12 @@ def thorough_matrix():
     more = ['perm#2', 'permh', 'hname', 'hter', 'crlf']
     for s in T0:
         for o in OPTSETS:
+            if o == 'm3-alt':
+                continue
             seeds = [0, 1, 4242] if o in ('m3-elastic-cys', 'm22') else []
             m.append((s, o, core + (more if o in ('m3-elastic-cys', 'm3-nt', 'm22', 'eln21-ter') else []), seeds))
+    for s in T0:
+        m.append((s + '@alt', 'm3-alt', ['perm', 'perm#2', 'permrev', 'permh', 'rot90', 'rotfar', 'rotgen'], []))
     for s in T1:
         for o in ('m3-elastic-cys', 'm22-cys'):
             m.append((s, o, ['perm', 'hv2', 'rotfar', 'rotgen', 'all2'], [7] if o == 'm3-elastic-cys' else []))
@@ -1030,6 +1073,9 @@ def thorough_matrix():
 
 
 def load_structure(s):
+    if s.endswith('@alt'):
+        recs, extra = load_structure(s[:-4])
+        return add_alternates(recs, chk.rng('alt|' + s)), extra
     if s in T0:
         path, extra = os.path.join(TDATA, T0[s]), []
     elif s in T1:
@@ -1062,10 +1108,12 @@ def make_transform(kind, recs, rng):
         desc['renamed'] = n
     if kind in ('rotfar', 'all2'):
         A = pick_rot90(rng)
-        t = far_translation(recs, A, rng)
+        t, modes = far_translation(recs, A, rng)
         recs = t_move_exact(recs, A, t)
         motion = ('exact', A, t)
-        desc['A'], desc['t'] = A, t
+        desc['A'], desc['t'], desc['columns'] = A, t, modes
+        for m_ in modes:
+            chk.count('rotfar_axis=' + m_)
     if kind in ('hren', 'all', 'hrenlast'):
         recs, n = t_hren(recs, rng, last=(kind == 'hrenlast'))
         desc['renamed'] = n
@@ -1214,7 +1262,21 @@ for bkey, b in sorted(bases.items()):
     r = results[b['cid']]
     chk.count('base_exit=%s' % (r['code'] if isinstance(r['code'], int) else 'exception'))
     if r['code'] != 0:
+        # the structures are the shipped test inputs under options they are known to convert with: not converting the
+        # ORIGINAL presentation is a failure of the pipeline (and leaves nothing to compare the other presentations with)
         chk.notes.append('base run %s exits %s: %s' % (b['cid'], r['code'], r['log'][-300:].replace('\n', ' | ')))
+        d = os.path.join(VERIF, 'replays')
+        os.makedirs(d, exist_ok=True)
+        po = os.path.join(d, 'C11-%s-original.pdb' % hashlib.sha1((b['pdb'] + ' '.join(b['argv'])).encode()).hexdigest()[:10])
+        with open(po, 'w', newline='') as f:
+            f.write(b['pdb'])
+        chk.case(b['cid'], json.dumps({'structure': bkey[0], 'options': b['argv'], 'transformation': 'none',
+                                       'original_pdb': po,
+                                       'replay': 'cd <dir>; martinize2 %s  (in.pdb = original_pdb)' % ' '.join(b['argv'])},
+                                      sort_keys=True),
+                 'exit %s' % r['code'], None,
+                 ['the original presentation of a test structure does not convert: martinize2 exits %s: %s'
+                  % (r['code'], r['log'][-600:].replace('\n', ' | '))], False)
 
 for p in plans:
     b = bases[p['bkey']]
